@@ -216,20 +216,21 @@ theorem qframe_withdraw {s s' : State} {d v rw} (e : withdraw s d v rw = some s'
     · rename_i s1 h1
       cases e; exact (qframe_touchPre h1).trans ⟨rfl, rfl, rfl, rfl⟩
 
-theorem addEntry_keep (es : List (Time × Nat × Nat)) (t amt id : Nat) :
-    ∀ e ∈ es, ∃ e' ∈ (addEntry es t amt id).1, e'.1 = e.1 := by
+theorem addEntry_keep (es : List (Time × Nat × Nat)) (t amt id lo : Nat) :
+    ∀ e ∈ es, ∃ e' ∈ (addEntry es t amt id lo).1, e'.1 = e.1 := by
   intro e he
   unfold addEntry
   split
   · exact ⟨_, List.mem_map.mpr ⟨e, he, rfl⟩, by split <;> rfl⟩
   · exact ⟨e, List.mem_append_left _ he, rfl⟩
 
-theorem addEntry_new (es : List (Time × Nat × Nat)) (t amt id : Nat) : ∃ e ∈ (addEntry es t amt id).1, e.1 = t := by
+theorem addEntry_new (es : List (Time × Nat × Nat)) (t amt id lo : Nat) : ∃ e ∈ (addEntry es t amt id lo).1, e.1 = t := by
   unfold addEntry
   split
   · rename_i h
     obtain ⟨e, he, het⟩ := List.any_eq_true.mp h
-    exact ⟨_, List.mem_map.mpr ⟨e, he, rfl⟩, by simp only [het, ↓reduceIte]; exact eq_of_beq het⟩
+    have h1 : (e.1 == t) = true := by simp only [Bool.and_eq_true] at het; exact het.1
+    exact ⟨_, List.mem_map.mpr ⟨e, he, rfl⟩, by simp only [het, ↓reduceIte]; exact eq_of_beq h1⟩
   · exact ⟨(t, amt, id), List.mem_append_right _ (List.mem_cons_self ..), rfl⟩
 
 theorem qInv_undelegate {s s' : State} {d v amt rw} (h : QInv s) (e : undelegate s d v amt rw = some s') : QInv s' := by
@@ -248,10 +249,10 @@ theorem qInv_undelegate {s s' : State} {d v amt rw} (h : QInv s) (e : undelegate
           have f1 := qframe_unbond h1
           have i1 := h.frame f1
           refine ⟨?_, i1.r⟩
-          refine i1.u.push (d, v) (s.now + s.unbondTime) _ (fun es hes e he => ?_) (addEntry_new _ _ _ _)
+          refine i1.u.push (d, v) (s.now + s.unbondTime) _ (fun es hes e he => ?_) (addEntry_new _ _ _ _ _)
           have : (get s.ubds (d, v)).getD [] = es := by rw [← f1.ubds, hes]; rfl
           rw [this]
-          exact addEntry_keep es _ _ _ e he
+          exact addEntry_keep es _ _ _ _ e he
 
 theorem qInv_redelegate {s s' : State} {d a b amt r1 r2} (h : QInv s) (e : redelegate s d a b amt r1 r2 = some s') :
     QInv s' := by
